@@ -31,6 +31,7 @@ const (
 //	call C PROG        nested call of contract C with hex(PROG); failure aborts unless...
 //	trycall C PROG     nested call whose failure is swallowed
 //	transfer FROM TO AMT   contract-originated token transfer
+//	trytransfer FROM TO AMT   the same, a failure (not enough funds) is noted and the call carries on
 //	event NAME BODY
 //	use CPU MEM DISK XFEE  account resource use
 //	fail               return an error
@@ -89,6 +90,10 @@ func (p *ProgBuilder) Call(c string, prog string, try bool) *ProgBuilder {
 }
 func (p *ProgBuilder) Transfer(from, to string, amt string) *ProgBuilder {
 	p.lines = append(p.lines, fmt.Sprintf("transfer %s %s %s", encField([]byte(from)), encField([]byte(to)), amt))
+	return p
+}
+func (p *ProgBuilder) TryTransfer(from, to string, amt string) *ProgBuilder {
+	p.lines = append(p.lines, fmt.Sprintf("trytransfer %s %s %s", encField([]byte(from)), encField([]byte(to)), amt))
 	return p
 }
 func (p *ProgBuilder) Event(name string, body []byte) *ProgBuilder {
@@ -239,7 +244,7 @@ func runProg(ctx contract.KContext, text string) (*contract.Response, error) {
 			if resp.Status >= 400 && in.op == "call" {
 				return nil, errors.New("nested call returned error status")
 			}
-		case "transfer":
+		case "transfer", "trytransfer":
 			if err := need(3); err != nil {
 				return nil, err
 			}
@@ -253,7 +258,10 @@ func runProg(ctx contract.KContext, text string) (*contract.Response, error) {
 				return nil, errors.New("bad amount")
 			}
 			if err := ctx.Transfer(string(from), string(to), amt); err != nil {
-				return nil, err
+				if in.op != "trytransfer" {
+					return nil, err
+				}
+				fmt.Fprintf(&body, "transfer-failed;") // the contract falls back and carries on
 			}
 		case "event":
 			if err := need(2); err != nil {
